@@ -1166,6 +1166,9 @@ class FxBuilder(Builder):
         f = t["f"]
         name = callee_name(f) or "<indirect>"
         args = tuple(self.ev_operand(fr, a) for a in t["args"])
+        if name == "<indirect>" and "ind" in f:
+            # a call through a function pointer or closure value: the callee value is the first argument
+            args = (self.ev_operand(fr, f["ind"]),) + args
         base = self.facts.fns[f["inst"]].def_path if "inst" in f else f.get("base")
         if t["t"] is None:
             nodes.append(("panic", name, args, site))
